@@ -43,6 +43,7 @@ def collision_cases():
 def all_cases(ctx):
     cs = F.f_unit(5) + F.f_shape() + F.f_bb() + F.f_cyc() + collision_cases() + F.reordered(F.f_shape() + F.f_bb())
     cs += F.renamed([c for c in F.f_unit(3) if c[0][0] == "pair" and ("xor" in c[0][1:3] or "xnor" in c[0][1:3])], "cnf_aux")
+    cs += F.f_rand_bb(ctx.seed, 12 if ctx.quick else 100)
     if ctx.quick:
         cs += F.f_rand(ctx.seed, 30)
     else:
